@@ -2,7 +2,6 @@ package internal
 
 import (
 	"fmt"
-	"strings"
 	"sync"
 	"time"
 
@@ -140,18 +139,31 @@ func canonInit() {
 
 	canonFlag = make(map[string]imap.Flag)
 	for _, flag := range flags {
-		canonFlag[strings.ToLower(string(flag))] = flag
+		canonFlag[asciiLower(string(flag))] = flag
 	}
 
 	canonMailboxAttr = make(map[string]imap.MailboxAttr)
 	for _, attr := range mailboxAttrs {
-		canonMailboxAttr[strings.ToLower(string(attr))] = attr
+		canonMailboxAttr[asciiLower(string(attr))] = attr
 	}
+}
+
+// asciiLower lower-cases the ASCII letters of s and leaves every other byte
+// alone: IMAP names are case-insensitive over US-ASCII only, so e.g. U+0130
+// must not be folded onto "i".
+func asciiLower(s string) string {
+	b := []byte(s)
+	for i, ch := range b {
+		if ch >= 'A' && ch <= 'Z' {
+			b[i] = ch + 'a' - 'A'
+		}
+	}
+	return string(b)
 }
 
 func canonicalFlag(s string) imap.Flag {
 	canonOnce.Do(canonInit)
-	if flag, ok := canonFlag[strings.ToLower(s)]; ok {
+	if flag, ok := canonFlag[asciiLower(s)]; ok {
 		return flag
 	}
 	return imap.Flag(s)
@@ -159,7 +171,7 @@ func canonicalFlag(s string) imap.Flag {
 
 func canonicalMailboxAttr(s string) imap.MailboxAttr {
 	canonOnce.Do(canonInit)
-	if attr, ok := canonMailboxAttr[strings.ToLower(s)]; ok {
+	if attr, ok := canonMailboxAttr[asciiLower(s)]; ok {
 		return attr
 	}
 	return imap.MailboxAttr(s)
